@@ -13,7 +13,8 @@ EXPLANATION = (
     "inner loop is balanced (R2); line accounting of the byte scanner: line_number/start_of_line change only "
     "in the newline arm and no other consumption can swallow a newline (R3); payload agreement between token-producing "
     "arms and the consumers that unwrap payloads (R4); overflow-checked literal accumulation and E140 conditioned on value "
-    "overflow (R5). Equality of the two lexers on all strings and exact spans for every input are not decided.")
+    "overflow (R5); digit evidence: whether a literal follows `0x`/`0b` is decided only from state updated by digit branches (R6). "
+    "Equality of the two lexers on all strings and exact spans for every input are not decided.")
 
 REF_SUFFIXES = {"i8": "Int8", "i16": "Int16", "i32": "Int32", "i64": "Int64", "i128": "Int128",
                 "u8": "Uint8", "u16": "Uint16", "u32": "Uint32", "u64": "Uint64", "u128": "Uint128", "usize": "Usize"}
@@ -277,6 +278,7 @@ def check(run):
     r3_lines(run, F, D)
     r4_payload(run, F, D)
     r5_accumulate(run, F, D)
+    r6_digit_evidence(run, F, D)
     run.assume("alpha never sees '\\n' or a '\\r' directly before it: str::lines() strips them (C13.R4 checks the offset bookkeeping)")
 
 
@@ -410,3 +412,84 @@ def r2_span_balance(run, F):
     run.note_analysed("R2 blocks", n)
     run.note_analysed("R2 weighted edges", len(E))
     run.assume("R2: a bare `iter.next();` follows a successful `iter.peek()` and therefore consumes exactly one byte; all CFG paths are treated as feasible")
+
+
+# ---------------------------------------------------------------------------
+# R6: digit evidence in radix-prefixed literals
+
+def _assigned_locals(node):
+    out = set()
+    for n in walk(node):
+        if n.get("k") in ("Assign", "AssignOp"):
+            l = hirq.unwrap_trivial(n["lhs"])
+            while l.get("k") == "Field":
+                l = hirq.unwrap_trivial(l["e"])
+            if l.get("k") == "Path" and l.get("rk") == "Local":
+                out.add((l["lid"], l.get("res")))
+    return out
+
+
+def _read_locals(node):
+    out = set()
+    for n in walk(node):
+        if n.get("k") == "Path" and n.get("rk") == "Local":
+            out.add((n["lid"], n.get("res")))
+    return out
+
+
+def r6_digit_evidence(run, F, D):
+    """`0x` / `0b` followed by no digit is not a literal (the letter belongs to the suffix, E141). Whether a literal
+    is present must therefore be decided from state that only the digit branches of the scanning loop update, never
+    from state that the `_` separator branch also updates (e.g. the span end)."""
+    b = D.body
+    arm = D.digit_arms.get("0")
+    run.require(arm is not None, "b'0' arm not found")
+    n = 0
+    for pm in hirq.matches(arm["body"]):
+        if not lexq.is_peek(pm["scrut"]):
+            continue
+        for a in pm["arms"]:
+            cl = lexq.char_lits(a["pat"])
+            if len(cl) != 1 or cl[0] not in (120, 98):
+                continue
+            body = a["body"]
+            if body.get("k") != "Block":
+                continue
+            seq = list(body.get("stmts", [])) + ([body["e"]] if "e" in body else [])
+            loops = [s for s in seq if s.get("k") == "Loop" or (s.get("k") == "Match" and False)]
+            loop = None
+            for s in seq:
+                for x in walk(s):
+                    if x.get("k") == "Loop":
+                        loop = x
+                        break
+                if loop is not None:
+                    loop_stmt = s
+                    break
+            if loop is None:
+                continue
+            under = []
+            for x in walk(loop):
+                if x.get("k") == "If":
+                    c = hirq.unwrap_trivial(x["cond"])
+                    if c.get("k") == "Binary" and c.get("op") == "Eq" and lexq.char_lits(c) == [95]:
+                        under.append(x["then"])
+            if not under:
+                continue
+            sep_assigned = set()
+            for u in under:
+                sep_assigned |= _assigned_locals(u)
+            after = seq[seq.index(loop_stmt) + 1:]
+            decision_reads = set()
+            for s in after:
+                x = s
+                while x is not None and x.get("k") == "If":
+                    decision_reads |= _read_locals(x["cond"])
+                    x = hirq.unwrap_trivial(x["else"]) if "else" in x else None
+            n += 1
+            bad = sorted(name for lid, name in decision_reads & sep_assigned)
+            run.ob("R6-DIGIT-EVIDENCE", "0%s literal" % chr(cl[0]), not bad, F.where(b, a),
+                   "whether a literal follows `0%s` is decided from %s, which the `_` separator branch also updates: `0%s_` would lex as "
+                   "the literal 0 instead of an invalid suffix (E141), unlike the first generation" % (chr(cl[0]), bad, chr(cl[0])),
+                   sample={"decision_reads": sorted(nm for _, nm in decision_reads), "updated_by_separator_branch": sorted(nm for _, nm in sep_assigned)})
+    run.require(n == 2, "radix sub-arms (x, b) not analysed (%d)" % n)
